@@ -148,11 +148,11 @@ def statement_dispatch(repo, rule='rt'):
     mod, func, loop = helper_loop(repo, rule)
     key_var = None
     for s in loop.body:
-        if isinstance(s, ast.Assign) and isinstance(s.targets[0], ast.Name) and 'keys' in norm(s.value) and call_name(s.value) == 'next':
+        if isinstance(s, ast.Assign) and isinstance(s.targets[0], ast.Name) and call_name(s.value) == 'next' and s.value.args and call_name(s.value.args[0]) == 'iter':
             key_var = s.targets[0].id
     if key_var is None:
         for s in loop.body:
-            if isinstance(s, ast.Assign) and isinstance(s.targets[0], (ast.Tuple,)) and 'keys' in norm(s.value):
+            if isinstance(s, ast.Assign) and isinstance(s.targets[0], (ast.Tuple, ast.List)) and len(s.targets[0].elts) == 1 and isinstance(s.targets[0].elts[0], ast.Name):
                 key_var = s.targets[0].elts[0].id
     if key_var is None:
         raise Unrecognised(rule, 'statement kind variable not found in the statement loop', mod.rel)
